@@ -60,7 +60,7 @@ def plan(tier, seed, batch):
     if tier == "quick":
         if batch > 0:
             return []
-        n = 260
+        n = 200
     else:
         n = 1000
     return [{"index": batch * 100000 + i, "seed": seed, "tier": tier} for i in range(n)]
@@ -204,6 +204,8 @@ def check_result(op, res, summ):
                 except Exception:
                     ok = False
                     break
+                if path.count("/.data/") > 1:
+                    continue          # nested sub-assemblies are kept verbatim by the tool and are not part of its totals
                 init = "/.data/" not in path and op["fmt"] != "bl"
                 tot["gas0"] += g0
                 tot["gas1"] += g1
